@@ -220,7 +220,7 @@ prop('C13',
      'DESIGN.md 3.2, 4 C13')
 
 prop('C14',
-     [OK.ok1, OK.ok2, OK.ok4, R2.th3, R2.okv, LS.ls1_shell, AB.ab2, MI.oks, PS.ps1, R3.ok6, R3.ml7, R3.ix13, R2.cm2, R4.ml9, R5.tx2, MO.ln1, MO.ml2, AB.ab3, LS.ls1, R2.ml4, R5.un1, R6.lt3, R6.lb1, R7.rx8, R7.ml11, R7.tx4, PD.pd4, MI.ml6, R7.fd1, R7.ord1],
+     [OK.ok1, OK.ok2, OK.ok4, R2.th3, R2.okv, LS.ls1_shell, AB.ab2, MI.oks, PS.ps1, R3.ok6, R3.ml7, R3.ix13, R2.cm2, R4.ml9, R5.tx2, MO.ln1, MO.ml2, AB.ab3, LS.ls1, R2.ml4, R5.un1, R6.lt3, R6.lb1, R7.rx8, R7.ml11, R7.tx4, PD.pd4, MI.ml6, R7.fd1, R7.ord1, R7.ps8],
      'the chain part offset -> total offset -> LaTeX offset -> line / column: every match of a '
      'part is shifted once by the text accumulated before it (OK2), the accumulated text and map '
      'stay in lock step incl. delimiter padding (LS1s), map entries are read through abs() and '
@@ -311,7 +311,7 @@ prop('C20',
      'DESIGN.md 3.8 (CK1-CK3), 3.2 (AB4), 4 C20')
 
 prop('C17',
-     [PS.ps1, PS.ps2, PS.ps3, R2.ps5, R4.ps6, R5.pair1, R6.ps7, R7.nd1, R7.guard1],
+     [PS.ps1, PS.ps2, PS.ps3, R2.ps5, R4.ps6, R5.pair1, R6.ps7, R7.nd1, R7.guard1, R7.ps8],
      'nothing reachable from the per-document entry points writes to an object that outlives '
      'the call: whole-program field-based may-alias analysis of persistent allocation sites '
      '(module level, class level, default arguments, cache decorators) against every in-place '
